@@ -716,6 +716,89 @@ def run(ctx, col: Collector):
         col.floor('C08-precondition', 'call sites of doublequote_string', n, 2)
     guarded(col, 'C08-precondition', 'preconditions', preconditions)
 
+    def presence():
+        """`if not self.database:` means "no database yet" only while a Database is always truthy.  A model class that defines __bool__/__len__ turns every such
+        presence test into a content test: an empty-but-present object takes the "not set" branch (a RuntimeError meant for an impossible state, a lookup that is
+        skipped).  Note and StickyNote define __bool__ on purpose (a note without text counts as no note); for every other class each truth test on a value
+        declared to hold it is reported."""
+        from .presence import falsy_capable, truth_tested, expr_classes
+        DESIGNED = {'Note': 'a note without text counts as no note (renderers test `if model.note:`)', 'StickyNote': 'same convention as Note'}
+        fc = falsy_capable(idx)
+        model = {cid: ci for cid, ci in idx.classes.items() if ci.module.startswith(('pydbml._classes', 'pydbml.database', 'pydbml.parser'))}
+        risky = {cid: how for cid, how in fc.items() if cid in model and idx.classes[cid].name not in DESIGNED}
+        col.stat('classes_with_truth_value', sorted(f'{idx.classes[c].name} ({h})' for c, h in fc.items()))
+        n_sites = 0
+        if risky:
+            for fi in idx.all_funcs():
+                if not isinstance(fi.node, (ast.FunctionDef, ast.Lambda)):
+                    continue
+                for site, e in truth_tested(fi.node):
+                    hit = sorted(idx.classes[c].name for c in expr_classes(idx, fi, e) & set(risky))
+                    if hit:
+                        n_sites += 1
+                        col.bad('C08-presence', f'{fi.qualname}:{norm(e)[:40]}', f'{fi.qualname} tests `{norm(e)[:60]}` for truth to see whether it is set, but it may hold a '
+                                f'{"/".join(hit)}, which defines {risky[next(c for c in risky if idx.classes[c].name == hit[0])]}: an empty one counts as "not set" and the '
+                                f'branch for the missing object runs (an internal error or a skipped step) although the object is there', node=site, file=fi.file)
+        col.check(n_sites == 0, 'C08-presence', 'presence-tests', f'no model class other than {sorted(DESIGNED)} has a truth value of its own, so `if x:` on model objects '
+                  f'asks whether x is set ({len(model)} classes)', f'{n_sites} presence tests on objects that can be falsy while present ({sorted(idx.classes[c].name for c in risky)})')
+        # control: the two classes that do define a truth value are still seen by the collector
+        col.floor('C08-presence', 'classes with __bool__/__len__ (Note, StickyNote)', len(fc), 2)
+    guarded(col, 'C08-presence', 'presence', presence)
+
+    def inline_single_column():
+        """The DBML renderer refuses an inline reference with more than one column on the referenced side (`raise DBMLError(... composite ref cannot be inline)`).
+        For a parsed database `.dbml` must not raise, so every inline reference the parser builds has exactly one such column: (i) the grammar of the inline form
+        takes ONE name there (no parenthesised list), and (ii) the builder does not make several names out of that one token."""
+        rr = [fi for fi in funcs.values() if fi.module.startswith('pydbml.renderer.dbml.') and isinstance(fi.node, ast.FunctionDef)]
+        guards = []
+        for fi in rr:
+            for n in walk_no_nested(fi.node):
+                if isinstance(n, ast.If) and any(isinstance(x, ast.Raise) for x in n.body) and any(
+                        isinstance(c, ast.Call) and norm(c.func) == 'len' and c.args and isinstance(c.args[0], ast.Attribute) and c.args[0].attr in ('col1', 'col2')
+                        for c in ast.walk(n.test)):
+                    guards.append((fi, n))
+        if not guards:
+            col.ok('C08-precondition', 'inline-reference:single-column', 'the DBML renderer has no raise that depends on the number of columns of a reference')
+            return
+        fi0, g0 = guards[0]
+        side = next(c.args[0].attr for c in ast.walk(g0.test) if isinstance(c, ast.Call) and norm(c.func) == 'len' and c.args and isinstance(c.args[0], ast.Attribute))
+        # (i) the token that feeds that side in the inline form
+        nodes = gm.nodes_with_action('parse_inline_relation')
+        if not nodes:
+            col.unk('C08-precondition', 'inline-reference:single-column', f'{fi0.qualname} raises when an inline reference has several {side} columns; the parse action of the '
+                    f'inline form (parse_inline_relation) was not found in the grammar, so the number of columns it produces is unknown', node=g0, file=fi0.file)
+            return
+        act = idx.func('pydbml.definitions.reference', 'parse_inline_relation')
+        src_name = None
+        for n in ast.walk(act.node):
+            if isinstance(n, ast.Dict):
+                for k, v in zip(n.keys, n.values):
+                    if isinstance(k, ast.Constant) and k.value == side:
+                        subs = [x for x in ast.walk(v) if isinstance(x, ast.Subscript) and isinstance(x.slice, ast.Constant) and isinstance(x.slice.value, str)]
+                        if subs:
+                            src_name = subs[-1].slice.value
+            if isinstance(n, ast.keyword) and n.arg == side:
+                subs = [x for x in ast.walk(n.value) if isinstance(x, ast.Subscript) and isinstance(x.slice, ast.Constant) and isinstance(x.slice.value, str)]
+                if subs:
+                    src_name = subs[-1].slice.value
+        if src_name is None:
+            col.unk('C08-precondition', 'inline-reference:single-column', f'cannot see which token parse_inline_relation passes as {side}', node=act.node, file=act.file)
+            return
+        from ..grammar import named_nodes
+        toks = [t for nd in nodes for t in gt.walk(nd) if t.name == src_name]
+        if not toks:
+            col.unk('C08-precondition', 'inline-reference:single-column', f'no grammar element named `{src_name}` below the inline reference form', node=act.node, file=act.file)
+            return
+        composite = [t for t in toks if any(x.kind in ('lit', 'keyword') and x.a.get('text') in (',', '(') for x in gt.walk(t))]
+        where_c = f'{composite[0].module}:{composite[0].line}' if composite else ''
+        col.check(not composite, 'C08-precondition', 'inline-reference:single-column',
+                  f'the inline form takes one name as the referenced column (`{src_name}`), so the renderer\'s refusal of composite inline references cannot fire on a parsed database',
+                  f'the inline reference form accepts a parenthesised list of columns as `{src_name}` ({where_c}): the parser '
+                  f'builds an inline reference with several {side} columns, and {fi0.qualname} raises DBMLError for it - `.dbml` of a database that parsed raises',
+                  node=g0, file=fi0.file)
+        split_of_quoted_name(ctx, col, gm, 'C08-precondition', 'inline-reference', side)
+    guarded(col, 'C08-precondition', 'inline-single-column', inline_single_column)
+
     def kind_lookups():
         # a table indexed by the kind of a reference (`_FK_TABLE[ref.type]`): the kind ranges over the four relation constants, so every kind under which the
         # lookup is reached needs a key - decided by partial evaluation of the function once per kind (tests on the kind folded, `continue`/`return` followed)
@@ -806,6 +889,31 @@ def run(ctx, col: Collector):
                     col.unk('C08-required', cons, f'check_attributes_for_sql tests `{norm(a)}`, which is neither a None test nor a truth-value test', node=a, file=fi.file)
         col.floor('C08-required', 'tests on required attributes', n, 1)
     guarded(col, 'C08-required', 'required-check', required_check)
+
+
+def split_of_quoted_name(ctx, col: Collector, gm, rule: str, prefix: str, side: str = 'col2') -> None:
+    """The endpoint names of a reference are the names written.  The blueprint carries one side as ONE text and the builder splits it at a separator to get the
+    names; that is only right if no single name can contain the separator - a name written in quotes can.  (Shared by C08-precondition and C01-resolve.)"""
+    idx = ctx.idx
+    nodes = gm.nodes_with_action('parse_inline_relation') + gm.nodes_with_action('parse_ref')
+    toks = [t for nd in nodes for t in gt.walk(nd) if t.name in ('field', 'field1', 'field2')]
+    rb = idx.func('pydbml.parser.blueprints', 'ReferenceBlueprint.build')
+    splits = [c for c in ast.walk(rb.node) if isinstance(c, ast.Call) and isinstance(c.func, ast.Attribute) and c.func.attr == 'split' and c.args
+              and isinstance(c.args[0], ast.Constant) and isinstance(c.func.value, ast.Attribute) and c.func.value.attr == side]
+    free_text = any(k.kind == 'quoted' for t in toks for k in gt.walk(t))
+    sep = splits[0].args[0].value if splits else None
+    cons = f'{prefix}:{side}:split-of-quoted-name'
+    if splits and not toks:
+        col.unk(rule, cons, 'the endpoint tokens of the reference forms were not found in the grammar', node=splits[0], file=rb.file)
+    elif splits and free_text:
+        col.bad(rule, cons, f'ReferenceBlueprint.build recovers the column names by splitting the {side} text at '
+                f'{sep!r}, but the token is a name that may be written in quotes and then contain {sep!r}: `ref: > t."a,b"` names ONE column and is built as a reference '
+                f'to the columns a and b - an inline reference with two columns, for which `.dbml` raises DBMLError (and the same misreading for the other forms)',
+                node=splits[0], file=rb.file)
+    elif splits:
+        col.ok(rule, cons, f'the names split at {sep!r} cannot contain it', node=splits[0], file=rb.file)
+    else:
+        col.ok(rule, cons, f'ReferenceBlueprint.build does not split the {side} text', node=rb.node, file=rb.file)
 
 
 def format_taint(ctx, fi: FuncInfo, recv: ast.AST, funcs: Dict[str, FuncInfo], depth: int = 0) -> List[str]:
